@@ -269,6 +269,13 @@ func run(s Script, v *vt.V) {
 					challenges++
 					said[a.Host] = append(said[a.Host], a.ChalHdr...)
 					for _, c := range a.ChalHdr {
+						if strings.Contains(c, `\`) {
+							// what a quoted string with quoted-pairs says (RFC 7230: a backslash stands
+							// for nothing but "take the next character as it is")
+							said[a.Host] = append(said[a.Host], quotedPairs(c))
+						}
+					}
+					for _, c := range a.ChalHdr {
 						if refScheme(c) == "basic" {
 							basicChallenged[a.Scheme+"://"+a.Host] = true
 						}
@@ -325,7 +332,23 @@ var rawHeaders = []string{
 	`Bearer realm="http://[::1",service="SVC"`,
 	`Bearer realm="",service="SVC"`,
 	`Custom realm="https://REALM/token"`,
+	`Bearer realm="https://REALM\x2eevil.test/token",service="SVC"`,
+	`Bearer realm="https://REALM\u002eevil.test/token",service="SVC"`,
+	`Bearer realm="https:\/\/REALM\/token",service="SVC"`,
+	`Bearer realm="https://REALM/token\",service="SVC"`,
 	`Bearer realm="https://REALM/token",service="SVC",scope="` + strings.Repeat("repository:foo:pull ", 50) + `"`,
+}
+
+// quotedPairs drops every backslash that introduces a quoted-pair and keeps the character after it.
+func quotedPairs(s string) string {
+	var b strings.Builder
+	for i := 0; i < len(s); i++ {
+		if s[i] == '\\' && i+1 < len(s) {
+			i++
+		}
+		b.WriteByte(s[i])
+	}
+	return b.String()
 }
 
 func genScript(t *rapid.T) Script {
@@ -385,7 +408,7 @@ func genScript(t *rapid.T) Script {
 var prop = &vt.Prop[Script]{
 	ID:   "C11",
 	Name: "CredentialConfinement",
-	Rule: "2-3 registry hosts (two of them differing only in port; sometimes a third named sreg1.test, whose http:// URL and reg1.test's https:// URL differ only around the '://') with distinct unique secrets and credential kinds {none, basic, refresh, refresh+basic, static token, failing config lookup}; token realms on separate hosts or on another registry's host; challenges {Bearer exact / no scope / unrelated scope, Basic, both, raw headers of every RFC 7235 shape: case variants, token and quoted values with escapes, missing '=', unterminated quotes, empty, 8-bit, unknown schemes (Negotiate, NTLM, Digest, Custom), several challenges in one line, realm naming another registry, malformed realm URL, very long scope}; token servers that fail with statuses 300-599 or redirect (301/302/307/308) to a host nobody named or to another port of the realm's host or to the same host over plaintext http or to themselves (a redirect loop, followed a bounded number of times), return malformed / empty JSON, omit the token, lack the POST endpoint, refuse over-wide scopes; registries that answer 401 to every token, with the usual challenge or - when a token was presented - with no, an unsupported or an unparsable Www-Authenticate header or with a Basic-only challenge; 1-8 requests (some to the plaintext http endpoint of a host name, which is a registry of its own as far as challenges go; some with a Host header naming another of the hosts) with no body, a plain body and a rewindable body; in a synctest bubble over the in-memory world; oracle: every secret is searched (also base64- and URL-decoded) in every outgoing request: a password only to a realm host its own registry named, or as Basic to its own registry after that registry issued a Basic challenge; a refresh token only to such realms; access tokens only to their own registry; at most 2 registry requests (and 8 token requests) per call; a 401 answered to a token minted in this call (on the retry, or on a first attempt made with a token acquired up front) reaches the caller as 403 DENIED (a JSON error document declared as application/json, whatever content type the registry's 401 had); the caller's request (method, URL, headers, ContentLength, Body, GetBody) is unchanged; every body (incl. those from GetBody) is closed on every path; a failing config lookup sends nothing; no panic; non-trivial = a challenge was seen and a credential was sent; distinct = the script",
+	Rule: "2-3 registry hosts (two of them differing only in port; sometimes a third named sreg1.test, whose http:// URL and reg1.test's https:// URL differ only around the '://') with distinct unique secrets and credential kinds {none, basic, refresh, refresh+basic, static token, failing config lookup}; token realms on separate hosts or on another registry's host; challenges {Bearer exact / no scope / unrelated scope, Basic, both, raw headers of every RFC 7235 shape: case variants, token and quoted values with escapes (also ones that read differently as string-literal escapes), missing '=', unterminated quotes, empty, 8-bit, unknown schemes (Negotiate, NTLM, Digest, Custom), several challenges in one line, realm naming another registry, malformed realm URL, very long scope}; token servers that fail with statuses 300-599 or redirect (301/302/307/308) to a host nobody named or to another port of the realm's host or to the same host over plaintext http or to themselves (a redirect loop, followed a bounded number of times), return malformed / empty JSON, omit the token, lack the POST endpoint, refuse over-wide scopes; registries that answer 401 to every token, with the usual challenge or - when a token was presented - with no, an unsupported or an unparsable Www-Authenticate header or with a Basic-only challenge; 1-8 requests (some to the plaintext http endpoint of a host name, which is a registry of its own as far as challenges go; some with a Host header naming another of the hosts) with no body, a plain body and a rewindable body; in a synctest bubble over the in-memory world; oracle: every secret is searched (also base64- and URL-decoded) in every outgoing request: a password only to a realm host its own registry named, or as Basic to its own registry after that registry issued a Basic challenge; a refresh token only to such realms; access tokens only to their own registry; at most 2 registry requests (and 8 token requests) per call; a 401 answered to a token minted in this call (on the retry, or on a first attempt made with a token acquired up front) reaches the caller as 403 DENIED (a JSON error document declared as application/json, whatever content type the registry's 401 had); the caller's request (method, URL, headers, ContentLength, Body, GetBody) is unchanged; every body (incl. those from GetBody) is closed on every path; a failing config lookup sends nothing; no panic; non-trivial = a challenge was seen and a credential was sent; distinct = the script",
 	Gen:  genScript,
 	Run:  run,
 }
